@@ -88,10 +88,34 @@ pub fn run(seed0: u64, count: u64) -> String {
     let mut out = String::new();
     for seed in seed0..seed0 + count {
         let mut rng = Rng::new(seed ^ 0x7AB1E);
-        let keys = gen_keys(&mut rng);
-        let items = gen_items(&mut rng, &keys);
-        let ri = *rng.pick(&[1u8, 1, 2, 3, 4, 16, 255]);
-        let ratio = *rng.pick(&[0.0f32, 0.0, 0.5, 0.75, 1.33, 8.0]);
+        // every 6th case: a block with several hundred items, so that it has more than
+        // 254 restart intervals (hash index must be omitted) and, with long keys, a
+        // binary index that needs 4-byte pointers
+        let big = seed % 12 == 0;
+        let (keys, items, ri, ratio) = if big {
+            let n = rng.range(240, 700) as usize;
+            let long = rng.chance(1, 3);
+            let mut keys: Vec<Vec<u8>> = (0..n)
+                .map(|i| {
+                    let mut k = format!("key{i:05}").into_bytes();
+                    if long {
+                        k.extend(std::iter::repeat(b'x').take(150));
+                    }
+                    k
+                })
+                .collect();
+            keys.sort();
+            let items: Vec<InternalValue> = keys
+                .iter()
+                .enumerate()
+                .map(|(i, k)| InternalValue::from_components(k.clone(), vec![i as u8], (i % 50) as u64 + 1, ValueType::Value))
+                .collect();
+            (keys, items, *rng.pick(&[1u8, 1, 2, 3]), *rng.pick(&[0.0f32, 0.75, 1.33, 8.0]))
+        } else {
+            let keys = gen_keys(&mut rng);
+            let items = gen_items(&mut rng, &keys);
+            (keys, items, *rng.pick(&[1u8, 1, 2, 3, 4, 16, 255]), *rng.pick(&[0.0f32, 0.0, 0.5, 0.75, 1.33, 8.0]))
+        };
         let nb = bucket_count(items.len(), ratio);
         let _ = writeln!(out, "CASE {seed} ri={ri} nb={nb} ratio={ratio}");
         for it in &items {
@@ -104,9 +128,16 @@ pub fn run(seed0: u64, count: u64) -> String {
                 hex(&it.value)
             );
         }
-        // probe keys: every key, plus neighbours that are absent
-        let mut probes: Vec<Vec<u8>> = keys.clone();
-        for k in &keys {
+        // probe keys: every key, plus neighbours that are absent (big cases: a sample)
+        let probe_base: Vec<Vec<u8>> = if big {
+            let mut v: Vec<Vec<u8>> = keys.iter().step_by(97).cloned().collect();
+            v.extend(keys.iter().rev().take(6).cloned());
+            v
+        } else {
+            keys.clone()
+        };
+        let mut probes: Vec<Vec<u8>> = probe_base.clone();
+        for k in &probe_base {
             let mut a = k.clone();
             a.push(0);
             probes.push(a);
@@ -123,7 +154,10 @@ pub fn run(seed0: u64, count: u64) -> String {
         }
         probes.sort();
         probes.dedup();
-        for k in &probes {
+        let mut hashed: Vec<&Vec<u8>> = keys.iter().chain(probes.iter()).collect();
+        hashed.sort();
+        hashed.dedup();
+        for k in hashed {
             let _ = writeln!(out, "HK {} {}", hex(k), xxhash_rust::xxh3::xxh3_64(k));
         }
         let bytes = match DataBlock::encode_into_vec(&items, ri, ratio) {
@@ -156,7 +190,11 @@ pub fn run(seed0: u64, count: u64) -> String {
             });
         let _ = writeln!(out, "ITER {} {}", u8::from(ok_fwd), u8::from(ok_rev));
         // point reads at every seqno boundary
-        let mut seqs: Vec<u64> = items.iter().flat_map(|i| [i.key.seqno, i.key.seqno + 1]).collect();
+        let mut seqs: Vec<u64> = if big {
+            vec![26]
+        } else {
+            items.iter().flat_map(|i| [i.key.seqno, i.key.seqno + 1]).collect()
+        };
         seqs.push(0);
         seqs.push(u64::MAX);
         seqs.sort_unstable();
